@@ -167,6 +167,17 @@ Print Assumptions C02_fee_distribution_conservative.
 Theorem C02_fee_distribution_credits : forall fp total minfee tp vals, 0 <= total -> forallb credit_nonneg (fee_dist_ops fp total minfee tp vals) = true.
 Proof. exact fee_dist_credits. Qed.
 Print Assumptions C02_fee_distribution_credits.
+(* the allegation penalty (guilty verdict at EndBlock) destroys at least what the bounty program receives: for every ledger,
+   validator, option values with 0 <= bounty% <= bountyDecimals; C19 proves the penalty's size and the verdict rule *)
+Theorem C02_no_creation_allegation_penalty : forall (l : gmap key Z) (stake val bounty : N) (pct dec bpct bdec : Z),
+  0 <= val_total l val -> 0 <= pct -> 0 < dec -> 0 <= bpct <= bdec -> 0 < bdec ->
+  no_creation (penalty_ops l stake val bounty pct dec bpct bdec) /\ credits_ok (penalty_ops l stake val bounty pct dec bpct bdec) /\
+  takes_only_from (penalty_ops l stake val bounty pct dec bpct bdec) [stake].
+Proof. exact penalty_ops_facts. Qed.
+Print Assumptions C02_no_creation_allegation_penalty.
+Example C02_ex_penalty : let l := ladd ∅ (mk 3 B_STAKE 0 4) (3000000 * E18) in
+  penalty_ops l 3 4 8 30 100 50 100 = [Burn (mk 3 B_STAKE 0 4) (900000 * E18); Mint (bal 8 0) (450000 * E18)].
+Proof. vm_compute. reflexivity. Qed.
 Example C02_ex_fee_distribution : fee_dist_ops 9 100 10 7 [(1%N, 3); (2%N, 4); (3%N, 0)] =
   [Move (feepool 9) (mk 1 B_FEE 0 0) 42; Move (feepool 9) (mk 2 B_FEE 0 0) 57].
 Proof. vm_compute. reflexivity. Qed.
